@@ -7,7 +7,7 @@
    den s  = the facts and valued fluents the state prints (Proofs/C14_Main.den).
    Hypotheses, all on the two states at hand:
      state_ok   every name is a clean token (non-empty, lower case, no blank / parenthesis), facts are positive, no predicate
-                is called "=";
+                is called "=", and every fluent value is a float (C14_eq_int_refuted / C14_eq_unset_refuted otherwise);
      nums_ok    repr/float on the values that occur: float(repr x) is x, and equal data print equally (CPython facts,
                 re-checked by the harness on every value it meets);
      nums_clean repr x is a clean token.
@@ -30,6 +30,28 @@ Theorem C14_eq : forall num_text parse_num s t,
   state_ok s = true -> state_ok t = true -> nums_ok num_text parse_num (values s ++ values t) ->
   (state_eq num_text s t = true <-> State_same (den s) (den t)).
 Proof. exact state_eq_same. Qed.
+
+(* [state_ok] also demands that every fluent value is a float -- what the parsers and the effects store.  Without
+   that demand (names only) the statement fails: PDDLFunction keeps the object it is given, and a Python int prints as
+   "1", not "1.0" (finding D90: an int handed to set_value; finding D91: the never-set default, the int 0).  The two
+   states denote the same facts and the same fluents with the same values, == says they differ, and their texts differ. *)
+Definition C14_eq_full_statement : Prop := forall num_text parse_num s t,
+  state_names_ok s = true -> state_names_ok t = true -> nums_ok num_text parse_num (values s ++ values t) ->
+  (state_eq num_text s t = true <-> State_same (den s) (den t)).
+
+Theorem C14_eq_int_refuted :
+  exists s t, state_names_ok s = true /\ state_names_ok t = true /\
+    nums_ok ex_num_text ex_parse_num (values s ++ values t) /\
+    State_same (den s) (den t) /\ state_eq ex_num_text s t = false /\
+    serialize ex_num_text s <> serialize ex_num_text t.
+Proof. exact (ex_intro _ ex_one_int (ex_intro _ ex_one_float (ex_int_pair _ _ (or_introl (conj eq_refl eq_refl))))). Qed.
+
+Theorem C14_eq_unset_refuted :
+  exists s t, state_names_ok s = true /\ state_names_ok t = true /\
+    nums_ok ex_num_text ex_parse_num (values s ++ values t) /\
+    State_same (den s) (den t) /\ state_eq ex_num_text s t = false /\
+    serialize ex_num_text s <> serialize ex_num_text t.
+Proof. exact (ex_intro _ ex_unset (ex_intro _ ex_zero_float (ex_int_pair _ _ (or_intror (conj eq_refl eq_refl))))). Qed.
 
 (* the decidable reading used by the correspondence is the Prop reading *)
 Theorem C14_spec_reflect : forall a b, state_same a b = true <-> State_same a b.
@@ -141,6 +163,8 @@ Theorem C14_build_example :
 Proof. exact ex_build_hypotheses. Qed.
 
 Print Assumptions C14_eq.
+Print Assumptions C14_eq_int_refuted.
+Print Assumptions C14_eq_unset_refuted.
 Print Assumptions C14_spec_reflect.
 Print Assumptions C14_eq_refl.
 Print Assumptions C14_eq_sym.
